@@ -1,0 +1,70 @@
+//go:build verif
+
+package lock
+
+import (
+	"reflect"
+	"sync"
+	"unsafe"
+)
+
+// StateEntries walks every field of the lock object by reflection and returns the total number
+// of entries it keeps in containers (sync.Map, map, slice, channel buffers), including the callers
+// queued in every per-key queue object reachable from those containers. With nothing locked or
+// waited on it must be 0 whatever bookkeeping the lock uses (harness use only).
+func StateEntries(l Lock) int {
+	seen := map[unsafe.Pointer]bool{}
+	return countEntries(reflect.ValueOf(l.(*lock)).Elem(), seen, 0)
+}
+
+func countEntries(v reflect.Value, seen map[unsafe.Pointer]bool, depth int) int {
+	if depth > 6 || !v.IsValid() {
+		return 0
+	}
+	n := 0
+	switch v.Kind() {
+	case reflect.Struct:
+		if v.Type() == reflect.TypeOf(sync.Map{}) {
+			if !v.CanAddr() {
+				return 0
+			}
+			m := (*sync.Map)(unsafe.Pointer(v.UnsafeAddr()))
+			m.Range(func(_, val any) bool {
+				n++
+				n += countEntries(reflect.ValueOf(val), seen, depth+1)
+				return true
+			})
+			return n
+		}
+		if v.Type() == reflect.TypeOf(sync.Mutex{}) || v.Type() == reflect.TypeOf(sync.RWMutex{}) {
+			return 0
+		}
+		for i := 0; i < v.NumField(); i++ {
+			n += countEntries(v.Field(i), seen, depth+1)
+		}
+	case reflect.Ptr:
+		if v.IsNil() || seen[v.UnsafePointer()] {
+			return 0
+		}
+		seen[v.UnsafePointer()] = true
+		n += countEntries(v.Elem(), seen, depth+1)
+	case reflect.Interface:
+		if !v.IsNil() {
+			n += countEntries(v.Elem(), seen, depth+1)
+		}
+	case reflect.Map:
+		n += v.Len()
+		it := v.MapRange()
+		for it.Next() {
+			n += countEntries(it.Value(), seen, depth+1)
+		}
+	case reflect.Slice:
+		n += v.Len()
+		for i := 0; i < v.Len(); i++ {
+			n += countEntries(v.Index(i), seen, depth+1)
+		}
+	case reflect.Chan:
+		n += v.Len()
+	}
+	return n
+}
